@@ -191,6 +191,14 @@ finding(
     "P71", ["C16"], "fixed", "openapi_bulk groups routes per path with groupby WITHOUT sorting: for a routes file in the order delete('/x/:id'), post('/x'), get('/x/:id') the DELETE operation is missing from the document", "183509b",
     witnesses={"C16": [{"app": "app", "models": [{"cls": "Log", "cols": [{"default": None, "fk": False, "name": "id", "nodoc": False, "nullable": False, "typ": "int", "pk": True}, {"default": None, "fk": False, "name": "msg", "nodoc": False, "nullable": True, "typ": "str"}], "crud": "CRD", "crud0": "D", "doc_cols": True, "emitted": False, "multi": False, "pk": "explicit", "pk_name": "id", "tbl": "log", "tbl_kind": "titlecase"}], "prefix": ""}]},
 )
+finding(
+    "P72", ["C19"], "fixed", "gen on a JSON-schema FILE: the mapping key is the basename with its extension, the symbol is emitted as `FoojsonConfig` while __all__ lists 'Foo.jsonConfig' (a name the module does not define)", "fb6a22c",
+    witnesses={"C19": [{"emit": "class", "existing": False, "in": "json", "infer": False, "irs": [{"doc": "The foo.", "kinds": ["int", "optstr"], "name": "Foo", "params": [["alpha", {"default": 5, "doc": "the a", "typ": "int"}], ["beta", {"doc": "the b", "typ": "Optional[str]"}]], "returns": None}], "kinds_in": ["json"], "names": ["Foo"], "parse": "explicit", "prepend": None, "tpl": "{name}Config"}]},
+)
+finding(
+    "P73", ["C19"], "fixed", "gen --parse infer on a JSON-schema file raises NotImplementedError (the file is loaded for 'infer', but infer() rejects the loaded dict)", "c8f70e4",
+    witnesses={"C19": [{"emit": "function", "existing": False, "in": "json", "infer": False, "irs": [{"doc": "The foo.", "kinds": ["int", "optstr"], "name": "Foo", "params": [["alpha", {"default": 5, "doc": "the a", "typ": "int"}], ["beta", {"doc": "the b", "typ": "Optional[str]"}]], "returns": None}], "kinds_in": ["json"], "names": ["Foo"], "parse": "infer", "prepend": None, "tpl": "{name}"}]},
+)
 finding("P26", ["C07"], "open", "doctrans drops comments inside a rewritten multi-line def header")
 finding("P27", ["C07"], "open", "doctrans turns a one-line `def f(a=1): return a` into invalid Python")
 finding("P28", ["C07"], "open", "doctrans does not recognise a raw docstring r\"\"\"...\"\"\": a second string is inserted")
